@@ -3,7 +3,8 @@
    Observed outcome classes: 0 accepted, 1 rejected with an error, 2 panicked.
 
    [CDoc d obs parsed]: a document, as the generic JSON value the harness decoded from the bytes it
-   wrote (object members sorted by name); [obs] are the outcomes of the document routes that were run
+   wrote (object members sorted by name; a document made with two members of one name is printed from
+   the tree it was written from, both members kept); [obs] are the outcomes of the document routes that were run
    on it (cdi.ReadSpec on the .json file, Cache.Refresh + GetErrors on a directory holding it, the
    same two on the .yaml file); [parsed] what cdi.ParseSpec returned for the JSON and, when different,
    the YAML bytes ([None] = error or nil Spec).
@@ -24,7 +25,7 @@ Inductive case05 :=
 Definition all_eq (n : nat) (l : list nat) : bool := forallb (Nat.eqb n) l.
 
 Definition parsed_agrees (d : doc) (p : option spec) : bool :=
-  match spec_of_doc d, p with
+  match strict_of_doc d, p with
   | Ok s, Some s' => spec_eqb s s'
   | Err, None => true
   | _, _ => false
@@ -33,15 +34,15 @@ Definition parsed_agrees (d : doc) (p : option spec) : bool :=
 (* the model predicts every observation *)
 Definition corr05 (c : case05) : bool :=
   match c with
-  | CDoc d obs parsed => all_eq (rclass (accepts d)) obs && forallb (parsed_agrees d) parsed
+  | CDoc d obs parsed => all_eq (rclass (accepts_strict d)) obs && forallb (parsed_agrees d) parsed
   | CTyped s obs => all_eq (rclass (validate_spec s)) obs
   end.
 
 (* the property, on the observations: all routes and encodings agree, nothing panics, and the
-   document / value is accepted exactly when it decodes (only known fields, well-typed) to a
-   well-formed Spec *)
+   document / value is accepted exactly when no object of it names a member twice and it decodes
+   (only known fields, well-typed) to a well-formed Spec *)
 Definition should_accept_doc (d : doc) : bool :=
-  match spec_of_doc d with Ok s => wf_b s | _ => false end.
+  negb (has_dup d) && match spec_of_doc d with Ok s => wf_b s | _ => false end.
 Definition verdict_ok (should : bool) (obs : list nat) : bool :=
   match obs with
   | [] => false
